@@ -1685,6 +1685,9 @@ def translate_unit(src, unit, fail):
     """src: gen_tables.Src of unit['file']; returns (lean text, snippets dict); calls `fail(msg)` on anything outside the subset"""
     rel = unit["file"]
     out_fns, snippets, sigs = [], {}, {}
+    for nm, sg in unit.get("extern_sigs", {}).items():
+        h = Fn(unit, dict(lean="_", params=[]), {})
+        sigs[nm] = dict(lean=sg["lean"], params=[h.ty_of_text(t) for t in sg["params"]], ret=h.ty_of_text(sg["ret"]), abs=sg["abs"])
     for item in unit.get("pinned_items", []):
         n_found = len(re.findall(tokens_regex(item), src.code))
         if n_found != 1:
@@ -1784,6 +1787,34 @@ unit(name="SrcLcskpp", props="property C19", file="src/alignment/sparse.rs",
      abstract=SPARSE_ABS, sorts={"(u32, u32, u32)": "sortEv"}, bsearch={"(u32, u32)": "bsearchM"},
      functions=[LCSKPP_FN])
 
+
+PP = "Nat × Nat × Nat × Nat × Nat × Nat"
+unit(name="SrcSdpkpp", props="property C19", file="src/alignment/sparse.rs",
+     imports=["RbV.Gen.SrcFenwick", "RbV.Gen.SrcFenwickNew", "RbV.Gen.SrcLcskpp"],
+     structs=SPARSE_STRUCTS, pinned_items=SPARSE_PINNED + PREVPTR_PINNED, fenwick=FENWICK,
+     abstract=SPARSE_ABS + [("bsearchN", BSN)], sorts={"(u32, u32, u32)": "sortEv"},
+     bsearch={"(u32, u32)": "bsearchM", "usize": "bsearchN"},
+     extern_sigs={"lcskpp": dict(lean="RbV.Gen.SrcLcskpp.lcskpp", params=["&[(u32, u32)]", "usize"], ret="SparseAlignmentResult",
+                                 abs=["sortEv", "bsearchM"])},
+     functions=[
+         dict(name="new", key="PrevPtr::new", callkey="PrevPtr::new", lean="prevPtrNew",
+              header="pub fn new(score: u32, x: u32, y: u32, id: usize, gap_extend: u32) -> PrevPtr",
+              params=[("score", "u32"), ("x", "u32"), ("y", "u32"), ("id", "usize"), ("gap_extend", "u32")], ret="PrevPtr",
+              theorem="RbV.Thm.GenSrcSdpkpp.prevPtrNew_eq_model"),
+         dict(name="sdpkpp", lean="sdpkpp",
+              header="pub fn sdpkpp( matches: &[(u32, u32)], k: usize, match_score: u32, gap_open: i32, gap_extend: i32, ) "
+                     "-> SparseAlignmentResult",
+              params=[("matches", "&[(u32, u32)]"), ("k", "usize"), ("match_score", "u32"), ("gap_open", "i32"),
+                      ("gap_extend", "i32")], ret="SparseAlignmentResult",
+              locals={"n": "u32", "best_dp": "(u32, i32)", "traceback": "Vec<usize>"}, fuel=["{matches}.length + 1"],
+              theorem="RbV.Thm.GenSrcSdpkpp.sdpkpp_eq_model"),
+         dict(name="sdpkpp_union_lcskpp_path", lean="unionPath",
+              header="pub fn sdpkpp_union_lcskpp_path( matches: &[(u32, u32)], k: usize, match_score: u32, gap_open: i32, "
+                     "gap_extend: i32, ) -> Vec<usize>",
+              params=[("matches", "&[(u32, u32)]"), ("k", "usize"), ("match_score", "u32"), ("gap_open", "i32"),
+                      ("gap_extend", "i32")], ret="Vec<usize>", locals={"path_union": "Vec<usize>"},
+              theorem="RbV.Thm.GenSrcSdpkpp.unionPath_eq_splice"),
+     ])
 
 # ================================================================================================== self-test
 
